@@ -97,6 +97,19 @@ def run(ctx):
             ctx.tie_failures.append("session harness run failed (rc=%d): %s" % (rc, out[-300:]))
     else:
         sess_cases = len(L.parse_cases(ctx.out + "/sess.impl.txt"))
+    # … and whole lifecycles through the real TCP handler (contract tasks, pool failures, reconnects that fail, the scheduler taking the
+    # miner back to the default pool and starting the relay again, shares afterwards): a crash there needs four or five steps
+    life_cases = 0
+    texe = L.build_harness(ctx, "tcphandlers")
+    if texe:
+        for test, transcript, n in (("TestVerifLifeRegular$", "lifereg.impl.txt", 150 if quick else 2000), ("TestVerifLife$", "life.impl.txt", 200 if quick else 2000)):
+            rc, out = L.run_harness(ctx, texe, test, env={"VERIF_N": n, "VERIF_FLUSH": 1}, timeout=600 if quick else 1700)
+            if rc != 0 and re.search(r"panic: |fatal error: ", out) and "test timed out" not in out:
+                if L.crash_violation(ctx, transcript, out, "c05"):
+                    break
+            elif os.path.exists(ctx.out + "/" + transcript):
+                life_cases += len(L.parse_cases(ctx.out + "/" + transcript))
+    ctx.coverage["lifecycles_of_wellformed_events"] = life_cases
     ctx.coverage.update({
         "sessions_of_wellformed_events": sess_cases,
         "evaluations": sum(len([l for l in ls if l.startswith("> ")]) for h, ls in pcases) + total,
@@ -110,6 +123,9 @@ def replay(ctx, path):
     import json
     rp = json.load(open(path))
     ops = [o[2:] if o.startswith("> ") else o for o in rp.get("ops", [])]
+    if " life" in rp.get("case", "") or " lifereg" in rp.get("case", ""):
+        import lifelib
+        return lifelib.replay(ctx, path, "C05")
     exe = L.build_harness(ctx, HDIR)
     if not exe:
         print("cannot build harness: %s" % ctx.tie_failures)
